@@ -241,6 +241,9 @@ def _avg_configs():
         out.append((f, "uint16", "constant"))
     out.append(((2, 2, 2), "uint64", "edge"))
     out.append(((2, 2, 2), "float32", "edge"))
+    # float32 data in the IEEE regime (bit-exact float32/float64 arithmetic): range clause only
+    for f in ((2, 1, 1), (1, 2, 1), (1, 1, 2)):     # two-axis averaging (four values, double rounding chain) stays undecided within budget: not claimed
+        out.append((f, "float32", "edge-ieee"))
     return tuple(out)
 
 
@@ -261,10 +264,11 @@ class AveragingDownscale(Contract):
         f, dt, mode = cfg
         self.cfg = cfg
         self.exact = dt in ("uint8", "uint16", "uint32")
-        self.chunk = mk_chunk(c, dt, kind="real" if dt == "float32" else "int")
+        self.ieee = mode == "edge-ieee"
+        self.chunk = mk_chunk(c, dt, kind="fp" if self.ieee else ("real" if dt == "float32" else "int"))
         self.before = snapshot(self.chunk)
-        c.float_mode = "dyadic" if self.exact else "real"
-        if mode == "edge":
+        c.float_mode = "dyadic" if self.exact else ("fp" if self.ieee else "real")
+        if mode in ("edge", "edge-ieee"):
             self.outside = None
             obj = SObj(AveragingDownscaler, {"padding_mode": "edge", "pad_kwargs": {}})
         else:
@@ -290,6 +294,22 @@ class AveragingDownscale(Contract):
         yield ("dtype-unchanged", result.dtype == a.dtype)
         j, jin = a.forall(None, tag="u")
         yield ("input-not-modified", implies(jin, a.elem(*j) == self.before.elem(*j)))
+        if self.ieee:
+            # finite float32 inputs: the result is finite and lies between the least and the greatest contributing
+            # value (the work type float64 cannot overflow on two..four float32 values; conversions are monotone)
+            idx, inb = result.forall(None)
+            c.assume(inb)
+            ch, z, y, x = idx
+            vals = []
+            for da, db, de in itertools.product(range(fz), range(fy), range(fx)):
+                pz, py, px = fz * z + da, fy * y + db, fx * x + de
+                vals.append(self.before.elem(ch, smin(pz, Z - 1), smin(py, Y - 1), smin(px, X - 1)))
+            r = result.elem(*idx)
+            yield ("float32:result-is-finite(no overflow)", r.finite() if hasattr(r, "finite") else False)
+            lo_ok = Or(*[r >= v for v in vals])
+            hi_ok = Or(*[r <= v for v in vals])
+            yield ("float32:result-between-min-and-max-of-contributing-values", And(lo_ok, hi_ok))
+            return
         if not self.exact:
             return
         idx, inb = result.forall(None)
@@ -334,6 +354,20 @@ class AveragingDownscale(Contract):
         from fractions import Fraction
         from neuroglancer_scripts.downscaling import AveragingDownscaler
         (fx, fy, fz), dt, mode = cfg
+        if mode == "edge-ieee":
+            big = np.finfo(np.float32).max
+            for vals in ((big, big), (big, 0.75 * big), (-big, -big), (2.0 ** 24, 1.0), (1e-45, 1e-45), (3.0, 5.0)):
+                a = np.zeros((1, 2, 2, 2), dtype=np.float32)
+                a[...] = vals[0]
+                a[0, 1, :, :] = vals[1] if fz == 2 else a[0, 1, :, :]
+                a[0, :, 1, :] = vals[1] if fy == 2 else a[0, :, 1, :]
+                a[0, :, :, 1] = vals[1] if fx == 2 else a[0, :, :, 1]
+                with np.errstate(all="ignore"):
+                    out = AveragingDownscaler().downscale(a, [fx, fy, fz])
+                lo, hi_ = float(min(vals)), float(max(vals))
+                if not np.all(np.isfinite(out)) or out.min() < lo or out.max() > hi_:
+                    return {"reproduced": True, "detail": f"float32 values {vals} averaged with factors {(fx, fy, fz)}: result {out.ravel()[0]!r} is not within [{lo!r}, {hi_!r}]"}
+            return {"reproduced": False, "detail": "float32 averages stay finite and within range"}
         g = lambda n, lo=1, hi=5: min(max(lo, model.get(n, lo)), hi)
         shape = (1, g("Z"), g("Y"), g("X"))
         rng = np.random.default_rng(5 + model.get("seed", 0))
